@@ -28,6 +28,9 @@ type Scenario struct {
 	PutPanicAt    int   `json:"putpanicat"`
 	ReplayPanicAt int   `json:"replaypanicat"`
 	Prefill       int   `json:"prefill,omitempty"` // publishes made sequentially before anything else starts
+	TTLms         int   `json:"ttlms,omitempty"`     // valid replayer: time-to-live in (virtual) ms; 0 = practically infinite
+	Sleeps        []int `json:"sleeps,omitempty"`    // sleep actions (virtual ms) the scheduler may take, so that buffered events expire
+	EmptyIDAt     int   `json:"emptyidat,omitempty"` // manual IDs: the message with this creation index carries the (valid) empty ID; 0 = none, else index+1
 	WarmSubs      int   `json:"warmsubs,omitempty"` // the first WarmSubs subscribers are started and run to quiescence (registered) before the schedule begins
 	Picks         []int `json:"picks"`
 }
@@ -96,6 +99,16 @@ func genScenario(p profile) func(*rapid.T) Scenario {
 			sc.Auto = rapid.Bool().Draw(t, "auto")
 		} else {
 			sc.Replayer = stats.From(t, []string{"noop", "noop", "noop", "nil"}, "repkind")
+		}
+		if sc.Replayer == "valid" && stats.Pct(t, "finitettl") < 50 {
+			sc.TTLms = 5 + stats.Pick(t, 40, "ttlms")
+			nsl := 1 + stats.Pick(t, 4, "nsleeps")
+			for i := 0; i < nsl; i++ {
+				sc.Sleeps = append(sc.Sleeps, 1+stats.Pick(t, sc.TTLms+5, "sleepms"))
+			}
+		}
+		if (sc.Replayer == "finite" || sc.Replayer == "valid") && !sc.Auto && stats.Pct(t, "emptyid") < 30 {
+			sc.EmptyIDAt = 1 + stats.Pick(t, 8, "emptyidat")
 		}
 		ns := p.minSubs + stats.Pick(t, 5-p.minSubs, "nsubs")
 		for i := 0; i < ns; i++ {
